@@ -206,6 +206,10 @@ class Crate:
             if known is not None:
                 from . import inline
                 self.inliner = inline.inline_new(j["hir"], self.fns, known)
+                if not os.environ.get("ZSA_NO_NF"):
+                    for b_ in j["hir"]:
+                        if b_.get("inlined") and b_.get("body") is not None:
+                            b_["body"] = normal.bool_blocks(b_["body"])
         if not os.environ.get("ZSA_RAW_NAMES"):
             _label_locals(j["hir"])
 
